@@ -90,8 +90,19 @@ fn add_batch_dyn(
 /// Register everything of `regs` on a fresh builder. `sid` runs in depth-first order, exactly
 /// like `plan::infos`.
 pub fn make_builder(ctx: &Arc<Ctx>, regs: &[Reg], sid: &mut usize) -> DispatcherBuilder<'static, 'static> {
+    make_builder_cb(ctx, regs, sid, &mut |_, _| {})
+}
+
+/// Like `make_builder`; `after` is called with the (top-level) builder after each of its
+/// registrations (C20 formats the builder at chosen points of the registration sequence).
+pub fn make_builder_cb(
+    ctx: &Arc<Ctx>,
+    regs: &[Reg],
+    sid: &mut usize,
+    after: &mut dyn FnMut(&DispatcherBuilder<'static, 'static>, usize),
+) -> DispatcherBuilder<'static, 'static> {
     let mut b = DispatcherBuilder::new();
-    for r in regs {
+    for (ri, r) in regs.iter().enumerate() {
         match r {
             Reg::Barrier => b.add_barrier(),
             Reg::Sys { name, deps, reads, writes, hint } => {
@@ -113,6 +124,7 @@ pub fn make_builder(ctx: &Arc<Ctx>, regs: &[Reg], sid: &mut usize) -> Dispatcher
                 add_batch_dyn(ctl_ty(ctx, *ctl_read), ctl_ty(ctx, *ctl_write), &mut b, ctx, my, *times, *multi, *hint, ib, name, &d);
             }
         }
+        after(&b, ri);
     }
     b
 }
@@ -165,6 +177,8 @@ pub struct Built {
     pub layout: Layout,
     pub snapshot: Vec<Option<Core>>,
     pub debug_text: Option<Result<String, String>>,
+    pub debug_text_pretty: Option<Result<String, String>>,
+    pub early_prints: Vec<(usize, Result<String, String>)>,
     /// how many times `Dispatcher::setup` was called (1 + lifecycle `Setup` ops)
     pub expected_setups: u64,
     /// differences between the world after setup and the reference world (C13)
@@ -325,11 +339,13 @@ pub fn identify(ctx: &Arc<Ctx>, disp: &mut Dispatcher<'static, 'static>, world: 
 pub struct BuildOpts {
     pub capture_debug: bool,
     pub do_setup: bool,
+    /// also format the builder after these top-level registrations (indices into `regs`)
+    pub print_after: Vec<usize>,
 }
 
 impl Default for BuildOpts {
     fn default() -> Self {
-        BuildOpts { capture_debug: false, do_setup: true }
+        BuildOpts { capture_debug: false, do_setup: true, print_after: vec![] }
     }
 }
 
@@ -347,7 +363,13 @@ pub fn build(sc: &Scenario, opts: &BuildOpts) -> Built {
         }
     }
     let mut sid = 0;
-    let mut b = make_builder(&ctx, &sc.regs, &mut sid);
+    let mut early_prints: Vec<(usize, Result<String, String>)> = Vec::new();
+    let mut b = make_builder_cb(&ctx, &sc.regs, &mut sid, &mut |b, ri| {
+        if opts.print_after.contains(&ri) {
+            let r = std::panic::catch_unwind(std::panic::AssertUnwindSafe(|| format!("{:?}", b)));
+            early_prints.push((ri, r.map_err(|p| crate::util::payload_string(&p))));
+        }
+    });
     assert_eq!(sid, ctx.infos.len());
     #[cfg(feature = "par")]
     let mut pool = None;
@@ -365,6 +387,12 @@ pub fn build(sc: &Scenario, opts: &BuildOpts) -> Built {
     }
     let debug_text = if opts.capture_debug {
         let r = std::panic::catch_unwind(std::panic::AssertUnwindSafe(|| format!("{:?}", b)));
+        Some(r.map_err(|p| crate::util::payload_string(&p)))
+    } else {
+        None
+    };
+    let debug_text_pretty = if opts.capture_debug {
+        let r = std::panic::catch_unwind(std::panic::AssertUnwindSafe(|| format!("{:#?}", b)));
         Some(r.map_err(|p| crate::util::payload_string(&p)))
     } else {
         None
@@ -423,6 +451,8 @@ pub fn build(sc: &Scenario, opts: &BuildOpts) -> Built {
         layout,
         snapshot,
         debug_text,
+        debug_text_pretty,
+        early_prints,
         expected_setups,
         setup_problems,
         #[cfg(feature = "par")]
